@@ -13,7 +13,7 @@ RULE = ("(annotation a, annotation b, collar, support): random annotations (over
         "tracks per segment, labels present in one operand only, empty operands), collar from {0, g-1, g, g+1} for an "
         "existing same-label gap g, support random Segment/Timeline/None; observed: a.support(collar), label_duration "
         "of every label, chart(), chart(percent=True) (fractions checked in the driver), argmax(), argmax(support), "
-        "a*b and b*a; regimes K0/K4/K1; non-trivial = two labels and an intersecting pair across a and b")
+        "a*b and b*a; regimes K0/K4/K1; copies translated 2 h, 28 h, 3 d or -8 h 20 min from the origin; non-trivial = two labels and an intersecting pair across a and b")
 
 
 def generate(rng, tier):
